@@ -2,12 +2,16 @@
 use crate::h::Cfg;
 
 pub mod basic;
+pub mod pipes;
+pub mod prog;
 
 pub type Scenario = fn(&Cfg);
 
 pub fn all() -> Vec<(&'static str, Scenario)> {
     let mut v: Vec<(&'static str, Scenario)> = vec![];
     v.extend(basic::list());
+    v.extend(pipes::list());
+    v.extend(prog::list());
     v
 }
 
